@@ -322,4 +322,14 @@ pub mod verif {
             }
         }
     }
+
+    // ---- C13: the any-value bridge ---------------------------------------------------------------
+
+    /// Door to `data::any_value::EmitValue`: stream `value` through the real adapter into `stream`.
+    pub fn stream_any_value<'v>(
+        value: emit::Value<'v>,
+        stream: &mut impl sval::Stream<'v>,
+    ) -> sval::Result {
+        sval_ref::stream_ref(stream, crate::data::EmitValue(value))
+    }
 }
